@@ -413,15 +413,15 @@ macro_rules! equiv_harnesses {
         crate::obligations! {
             fn regs_tables(s) { tables(s) }
             fn regs_num_roundtrip(s) { num_roundtrip(s) }
-            #[kani::unwind(8)]
+            #[kani::unwind(40)]
             fn regs_from_str1(s) { from_str_body::<S, 1>(s) }
-            #[kani::unwind(8)]
+            #[kani::unwind(40)]
             fn regs_from_str2(s) { from_str_body::<S, 2>(s) }
-            #[kani::unwind(8)]
+            #[kani::unwind(40)]
             fn regs_from_str3(s) { from_str_body::<S, 3>(s) }
-            #[kani::unwind(8)]
+            #[kani::unwind(40)]
             fn regs_from_str4(s) { from_str_body::<S, 4>(s) }
-            #[kani::unwind(8)]
+            #[kani::unwind(40)]
             fn regs_from_str5(s) { from_str_body::<S, 5>(s) }
             #[kani::unwind(34)]
             fn regs_set_algebra(s) { set_algebra(s) }
